@@ -366,30 +366,15 @@ class Effects:
         return c[k]
 
     def is_memo_store(self, fk, stmt, target):
-        """`self.S = ..` in a property getter that returns self.S, under a dominating `self.S is None` /
-        `not hasattr(self, 'S')` test: initialisation of an empty memo slot."""
+        """`self.S = ..` inside a memoising getter of S (sa.flowtools.memo_form): initialisation of an empty memo slot."""
         if fk.kind != "get" or not isinstance(target, ast.Attribute) or norm(target.value) != "self":
             return False
-        slot = target.attr
-        names = {slot, slot.lstrip("_")}
+        from .flowtools import memo_form
 
-        def slot_of(e):
-            return isinstance(e, ast.Attribute) and norm(e.value) == "self" and (e.attr in names or e.attr.lstrip("_") in names)
-
-        if not any(isinstance(r, ast.Return) and r.value is not None and slot_of(r.value) for r in walk_no_nested(fk.fn)):
+        mf = memo_form(fk.fn)
+        if mf is None or mf["slot"].lstrip("_") != target.attr.lstrip("_"):
             return False
-        cur = stmt
-        parent = fk.mod.parent
-        while cur is not None and cur is not fk.fn:
-            p = parent.get(cur)
-            if isinstance(p, ast.If) and cur in p.body:
-                t = p.test
-                if isinstance(t, ast.Compare) and len(t.ops) == 1 and isinstance(t.ops[0], ast.Is) and isinstance(t.comparators[0], ast.Constant) and t.comparators[0].value is None and slot_of(t.left):
-                    return True
-                if isinstance(t, ast.UnaryOp) and isinstance(t.op, ast.Not) and isinstance(t.operand, ast.Call) and call_name(t.operand) == "hasattr" and len(t.operand.args) == 2 and norm(t.operand.args[0]) == "self" and isinstance(t.operand.args[1], ast.Constant) and str(t.operand.args[1].value).lstrip("_") in {x.lstrip("_") for x in names}:
-                    return True
-            cur = p
-        return False
+        return any(stmt is st for st in mf["store_stmts"])
 
     ELEMENTWISE_CALLS = {"list", "tuple", "set", "frozenset", "sorted", "reversed", "copy.copy", "copy", "enumerate", "zip", "dict",
                          "np.array", "np.asarray", "filter", "iter", "next"}
